@@ -373,10 +373,28 @@ func checkFacts(repo string) (string, error) {
 	// cfg.go binaryExpr case: the type of an operation on a typed operand
 	f["operandTypeWins"] = "false"
 	for _, cc := range casesOf(cfg, "aAdd, aSub, aMul, aQuo, aAnd, aOr, aXor, aAndNot") {
-		if len(cc.Body) == 1 && render(cc.Body[0]) == "switch { case n.typ == nil: case !c0.typ.untyped: n.typ = c0.typ case !c1.typ.untyped: n.typ = c1.typ }" {
+		// since 674fd4c the first case lets constant operations through also without a pushed-down type (the model
+		// computes the same type with nodeType there): both shapes are the rule of 2988c87
+		if len(cc.Body) == 1 && (render(cc.Body[0]) == "switch { case n.typ == nil: case !c0.typ.untyped: n.typ = c0.typ case !c1.typ.untyped: n.typ = c1.typ }" ||
+			render(cc.Body[0]) == "switch { case n.typ == nil && !(c0.rval.IsValid() && c1.rval.IsValid()): case !c0.typ.untyped: n.typ = c0.typ case !c1.typ.untyped: n.typ = c1.typ }") {
 			f["operandTypeWins"] = "true"
 		} else {
 			f["operandTypeWins"] = "false /- " + unrec("operand type case of the binaryExpr case") + " -/"
+		}
+	}
+
+	// cfg.go binaryExpr case, shifts: a constant shift of an untyped constant is an untyped integer constant
+	f["shiftUntypedInt"] = "false"
+	for _, cc := range casesOf(cfg, "aShl, aShr") {
+		if len(cc.Body) == 2 && render(cc.Body[1]) == "n.typ = c0.typ" {
+			switch render(cc.Body[0]) {
+			case "if c0.typ.untyped { if c0.rval.IsValid() && c1.rval.IsValid() { if n.typ = c0.typ; !isInt(n.typ.TypeOf()) { n.typ = untypedInt(n) } } break }":
+				f["shiftUntypedInt"] = "true"
+			case "if c0.typ.untyped { break }":
+				f["shiftUntypedInt"] = "false"
+			default:
+				f["shiftUntypedInt"] = "false /- " + unrec("shift case of the binaryExpr case") + " -/"
+			}
 		}
 	}
 
@@ -435,7 +453,7 @@ func checkFacts(repo string) (string, error) {
 	order := []string{"constExprBin", "constExprUn", "overflowBin", "overflowUn", "intBitsMax", "shiftCountMax", "shiftClamp", "quoIntExact",
 		"quoEarlyReturn", "zeroForm", "untypedStays", "floatShiftCount", "convTypedChecked", "reprConstValue", "boolConvChecked",
 		"foldLogical", "cmpNotPushed", "lenConstString", "runeLitKeepsType", "f32Direct",
-		"shiftBoolGuard", "addSkipsUntyped", "operandTypeWins", "codepointChecked", "lenAnyConstString", "litBitsMax"}
+		"shiftBoolGuard", "addSkipsUntyped", "operandTypeWins", "codepointChecked", "lenAnyConstString", "litBitsMax", "shiftUntypedInt"}
 	var fields []string
 	for _, k := range order {
 		fields = append(fields, k+" := "+f[k])
